@@ -128,3 +128,150 @@ def check(ctx, P, rule="bounds"):
     ctx.check(okf, rule, "finish:digits", "%d repack sites `a | (b << k)` have a < 2^k in all %d carry cases (max %s); no overflow assert can fire" % (len(packs), nparts, {k: bounds.fmt_iv((0, v)) for k, v in sorted(worst.items())}),
               "Poly1305::finish repacks limbs that are not reduced radix-2^26 digits (a carry is lost or left unpropagated): %d repack sites, offending (shift, interval of the low part): %s; undischarged overflow asserts: %s" % (len(packs), [(k, bounds.fmt_iv(v)) for k, v in bad[:4]], [(f[1], bounds.fmt_iv(f[2]) if f[2] else None) for f in afail[:3]]),
               where=fin.where(), key="%s:finish:digits" % rule)
+
+
+def check_identity(ctx, P, rule="poly-identity"):
+    """The accumulator arithmetic as polynomial identities (limb-polynomial normal form, carries as cancelling symbols):
+
+      block    sum(h'_i 2^(26 i)) == (sum((h_i + m_i) 2^(26 i))) * (sum(r_i 2^(26 i)))   modulo 2^130 - 5
+               over the limb symbols h_i, r_i and the message-limb terms m_i: every product lands on the right limb, the
+               wrap-around products carry the factor 5, every carry is added one limb up and removed below
+      finish   the 128-bit result  sum(out_i 2^(32 i)) == sum(L_j 2^(26 j)) + sum(pad_i 2^(32 i))   modulo 2^128
+               over the selected limbs L_j that are repacked and the pad words: every inter-word carry of the final
+               addition is propagated (narrowing casts are modelled exactly)"""
+    from .. import limbpoly, intern
+    from ..poly import Poly
+    T = "poly1305::Poly1305"
+    blk = P.fn(T + "::block")
+    fin = P.fn(T + "::finish")
+    inl = lambda n: n.endswith("::mul64") or n.endswith("read_u32_le")
+    # ---------------- block
+    rb_ = ssa.Eval(P, blk, inline=inl).run()
+    intern.Interner().canon_result(rb_)
+    outs = [rb_.mem_at_ret.get("arg1.h[%d]" % i) for i in range(5)]
+    if any(o is None for o in outs):
+        ctx.fail(rule, "block", "block does not write all five limbs of h", where=blk.where(), key="%s:block" % rule)
+    else:
+        # message limbs: the maximal sub-terms built from the 16 message bytes (and the hibit) only
+        memo = {}
+
+        def pure_msg(t):
+            """True if t depends on message bytes / constants / the finalized flag only, and on at least one message byte"""
+            r = memo.get(t)
+            if r is None:
+                if not isinstance(t, tuple) or not t:
+                    r = (True, False)
+                elif t[0] in ("ld", "pack"):
+                    r = (True, True)
+                elif t[0] == "load":
+                    r = (t[1] == "arg1.finalized", False)
+                elif t[0] == "c":
+                    r = (True, False)
+                elif t[0] == "elem":
+                    r = (True, True)
+                else:
+                    ok, has = True, False
+                    for x in t[1:]:
+                        if isinstance(x, tuple):
+                            a, b = pure_msg(x)
+                            ok = ok and a
+                            has = has or b
+                    r = (ok, has)
+                memo[t] = r
+            return r
+        msyms = {}
+
+        def opaque(t):
+            a, b = pure_msg(t)
+            if a and b:
+                if t not in msyms:
+                    msyms[t] = "m_%d" % len(msyms)
+                return msyms[t]
+            return None
+
+        def leaf(t):
+            if t[0] == "load":
+                m = re.match(r"^arg1\.(h|r)\[(\d)\]$", t[1])
+                if m:
+                    return "%s_%s" % (m.group(1), m.group(2))
+            return None
+        LP = limbpoly.LimbPoly(leaf, opaque=opaque)
+        tot = Poly()
+        for i, o in enumerate(outs):
+            tot = tot + LP.val(o) * (1 << (26 * i))
+        # which message symbol is added to which limb: read off the five sums h_i + m_j in the products
+        # (the bit positions of the m_j are decided by the msg-limbs rule of C05; here they are symbols)
+        PM = (1 << 130) - 5
+        R = Poly()
+        for i in range(5):
+            R = R + Poly.var("r_%d" % i) * (1 << (26 * i))
+        # pair message symbols with limbs by solving: the identity must hold for SOME assignment m_(sigma(i)) -> limb i
+        names = sorted(msyms.values(), key=lambda s_: int(s_[2:]))
+        ok = False
+        why = "found %d message-limb terms (expected 5)" % len(names)
+        if len(names) == 5 and not LP.unknown:
+            import itertools
+            for perm in itertools.permutations(range(5)):
+                Hm = Poly()
+                for i in range(5):
+                    Hm = Hm + (Poly.var("h_%d" % i) + Poly.var(names[perm[i]])) * (1 << (26 * i))
+                if not (tot - Hm * R).mod(PM):
+                    ok = True
+                    break
+            if not ok:
+                Hm = Poly()
+                for i in range(5):
+                    Hm = Hm + (Poly.var("h_%d" % i) + Poly.var(names[i])) * (1 << (26 * i))
+                why = "residue %s" % (tot - Hm * R).mod(PM).show()[:200]
+        elif LP.unknown:
+            why = "unrecognised operation %s" % str(LP.unknown[0])[:100]
+        ctx.check(ok, rule, "block", "h' == (h + m) * r (mod 2^130 - 5) as a polynomial identity over limb symbols; %d carry symbols cancel" % len(LP.qnames),
+                  "Poly1305::block does not compute (h + m) * r modulo 2^130 - 5: %s (a carry is dropped, masked away or added to the wrong limb, or a wrap-around product lacks the factor 5)" % why, where=blk.where(), key="%s:block" % rule)
+    # ---------------- finish: the final addition modulo 2^128
+    rf = ssa.Eval(P, fin, inline=inl).run()
+    intern.Interner().canon_result(rf)
+    fouts = [rf.mem_at_ret.get("arg1.h[%d]" % i) for i in range(4)]
+    if any(o is None for o in fouts):
+        ctx.fail(rule, "finish", "finish does not write h[0..4]", where=fin.where(), key="%s:finish" % rule)
+        return
+    # the repacked limbs: operands of  a | (b << k)  (a possibly shifted right)
+    seen, order = set(), []
+    for o in fouts:
+        bounds.subterms(o, seen, order)
+    limbs = []
+
+    def strip(t):
+        while isinstance(t, tuple) and t and t[0] == "cast":
+            t = t[1]
+        return t
+    for t in order:
+        if t[0] == "bin" and t[1] == "BitOr":
+            for x, y in ((t[2], t[3]), (t[3], t[2])):
+                if isinstance(y, tuple) and y[0] == "bin" and y[1] == "Shl" and ssa.is_c(y[3]) and not (isinstance(x, tuple) and x[0] == "bin" and x[1] == "Shl"):
+                    lo = strip(x)
+                    if lo[0] == "bin" and lo[1] == "Shr" and ssa.is_c(lo[3]):
+                        lo = strip(lo[2])
+                    hi = strip(y[2])
+                    for l in (lo, hi):
+                        if l not in limbs:
+                            limbs.append(l)
+    lsym = {l: "L_%d" % i for i, l in enumerate(limbs)}
+
+    def leaf2(t):
+        if t[0] == "load":
+            m = re.match(r"^arg1\.pad\[(\d)\]$", t[1])
+            if m:
+                return "p_%s" % m.group(1)
+        return None
+    LP = limbpoly.LimbPoly(leaf2, opaque=lambda t: lsym.get(t), narrow=True)
+    tot = Poly()
+    for i, o in enumerate(fouts):
+        tot = tot + LP.val(o) * (1 << (32 * i))
+    want = Poly()
+    for i in range(len(limbs)):
+        want = want + Poly.var("L_%d" % i) * (1 << (26 * i))
+    for i in range(4):
+        want = want + Poly.var("p_%d" % i) * (1 << (32 * i))
+    diff = (tot - want).mod(1 << 128)
+    ctx.check(len(limbs) == 5 and not diff and not LP.unknown, rule, "finish", "out == sum(L_j 2^(26 j)) + pad (mod 2^128) as a polynomial identity; %d carry / truncation symbols cancel" % len(LP.qnames),
+              "Poly1305::finish does not add the pad to the repacked accumulator modulo 2^128 (an inter-word carry is lost): %d repacked limbs, residue %s%s" % (len(limbs), diff.show()[:200], ("; unrecognised operation %s" % str(LP.unknown[0])[:100]) if LP.unknown else ""), where=fin.where(), key="%s:finish" % rule)
